@@ -8,13 +8,15 @@ package netpoll
 // the descriptor number an *os.File owns (ghost mirror of its private field)
 //@ ghost field os.File.gfd int
 
+// nonblock[n]: descriptor n is in non-blocking mode (a blocking connect(2) would ignore the dial deadline)
+//@ ghost map nonblock bool
 //@ func sysSocket
 //@   property C14 C15
 //@   results fd err
 //@   ensures (err == nil) == (fd != -1)
-//@   ensures err == nil ==> fd >= 0 && !old(fdopen[fd]) && fdopen[fd]
+//@   ensures err == nil ==> fd >= 0 && !old(fdopen[fd]) && fdopen[fd] && nonblock[fd]
 //@   ensures forall x int :: (err != nil || x != fd) ==> fdopen[x] == old(fdopen[x])
-//@   modifies fdopen, closecnt
+//@   modifies fdopen, closecnt, nonblock
 
 // a listener made by ConvertListener owns exactly the descriptor of its duplicate file
 //@ pred lnok(ln *listener) = ln.file != nil ==> ln.fd == ln.file.gfd && fdopen[ln.fd]
@@ -42,7 +44,7 @@ package netpoll
 //@   note when SetNonblock fails the listener is returned together with the error: the duplicate descriptor is still owned by it
 //@   ensures nl == nil ==> err != nil && forall x int :: fdopen[x] == old(fdopen[x])
 //@   ensures typeis(nl, *listener) && !typeis(l, *listener) ==> lnok(as(nl, *listener)) && as(nl, *listener).file != nil
-//@   modifies fdopen, closecnt
+//@   modifies fdopen, closecnt, nonblock
 
 // ---- the server (netpoll_server.go): C13 ----
 // the server's configuration is fixed by newServer; its own slot is bound to a poller once, by Run
@@ -207,7 +209,7 @@ package netpoll
 // connect: the slot taken for the wait is given back on every path out of the wait loop
 //@ func (*netFD).connect
 //@   property C14
-//@   requires ctx != nil && c.dialing
+//@   requires ctx != nil && c.dialing && nonblock[c.fd]
 //@   requires mbase(pollmanager) && (pollmanager.status == 2 ==> mgood(pollmanager))
 //@   assume pollmanager.status != 1
 //@   ensures forall o *FDOperator :: wasalloc(o) ==> o.owned == old(o.owned)
@@ -222,7 +224,7 @@ package netpoll
 
 //@ func (*netFD).dial
 //@   property C14
-//@   requires ctx != nil && c.dialing
+//@   requires ctx != nil && c.dialing && nonblock[c.fd]
 //@   requires mbase(pollmanager) && (pollmanager.status == 2 ==> mgood(pollmanager))
 //@   assume pollmanager.status != 1
 //@   ensures forall o *FDOperator :: wasalloc(o) ==> o.owned == old(o.owned)
@@ -240,7 +242,7 @@ package netpoll
 //@   ensures err == nil ==> fdopen[netfd.fd] && netfd.closed == 0
 //@   ensures forall o *FDOperator :: wasalloc(o) ==> o.owned == old(o.owned)
 //@   threadlocal !sockOpen
-//@   modifies world, fdopen, closecnt, FDOperator.owned, operatorCache.ocl, operatorCache.ofl, runFailed, wwDetached, ocBase, netFD.dialing, sockFd, sockClosed, sockOpen
+//@   modifies world, fdopen, closecnt, FDOperator.owned, operatorCache.ocl, operatorCache.ofl, runFailed, wwDetached, ocBase, netFD.dialing, sockFd, sockClosed, sockOpen, nonblock
 //@   ghost after call sysSocket#1: sockFd = result0; sockClosed = closecnt[result0]; sockOpen = result1 == nil
 //@   ghost after call newNetFD#1: result.dialing = true
 //@   note netFD.Close leaves descriptors 0..2 alone: a socket that was given one of those numbers is not closed (observation)
@@ -257,3 +259,54 @@ package netpoll
 //@ func sockaddrToAddr
 //@   trusted pure conversion of a socket address into a net.Addr (slices of array fields)
 //@   modifies nothing
+
+// the TCP dial with its self-connect / EADDRNOTAVAIL retries: every socket that was opened and then given up is closed (C14, C15)
+//@ ghost global dlOpened int
+//@ ghost global dlClosed int
+//@ func favoriteAddrFamily
+//@   trusted pure choice of the address family (string indexing, stdlib-derived)
+//@   modifies nothing
+//@ func internetSocket
+//@   property C14
+//@   requires ctx != nil
+//@   requires mbase(pollmanager) && (pollmanager.status == 2 ==> mgood(pollmanager))
+//@   assume pollmanager.status != 1
+//@   ensures (err == nil) == (conn != nil)
+//@   ensures err == nil ==> fdopen[conn.fd] && conn.closed == 0
+//@   ensures forall o *FDOperator :: wasalloc(o) ==> o.owned == old(o.owned)
+//@   modifies world, fdopen, closecnt, FDOperator.owned, operatorCache.ocl, operatorCache.ofl, runFailed, wwDetached, ocBase, netFD.dialing, sockFd, sockClosed, sockOpen, nonblock
+//@ func selfConnect
+//@   trusted comparison of the two socket addresses (type assertions on stdlib address types)
+//@   ensures err != nil ==> !result
+//@   modifies nothing
+//@ func spuriousENOTAVAIL
+//@   trusted unwrapping of stdlib error types
+//@   ensures err == nil ==> !result
+//@   modifies nothing
+//@ func newTCPConnection
+//@   property C14
+//@   requires conn != nil && (typeis(conn, *netFD) ==> conn#val != 0)
+//@   assume cblist() && mbase(pollmanager) && (pollmanager.status == 2 ==> mgood(pollmanager)) && pollmanager.status != 1
+//@   ensures (err == nil) == (connection != nil)
+//@   modifies world, key:netpoll.connection.setup, key:netpoll.connection.operator, locker.heldP, locker.heldC, locker.sealed_heldP, FDOperator.owned, operatorCache.ocl, runFailed, ocBase, prepDone, prepRegistered, prepOK, cbRuns
+//@   ghost before call (*connection).init#1: assert !wasalloc(arg0); arg0.setup = true
+//@ func (*sysDialer).dialTCP
+//@   property C14 C15
+//@   requires ctx != nil
+//@   results tc err
+//@   assume cblist() && mbase(pollmanager) && (pollmanager.status == 2 ==> mgood(pollmanager)) && pollmanager.status != 1
+//@   ensures (err == nil) == (tc != nil)
+//@   ensures dlOpened == dlClosed + dlKept && dlKept <= 1
+//@   modifies world, fdopen, closecnt, FDOperator.owned, operatorCache.ocl, operatorCache.ofl, runFailed, wwDetached, ocBase, netFD.dialing, sockFd, sockClosed, sockOpen, nonblock, key:netpoll.connection.setup, key:netpoll.connection.operator, locker.heldP, locker.heldC, locker.sealed_heldP, prepDone, prepRegistered, prepOK, cbRuns, dlOpened, dlClosed, dlKept, netFD.closed
+//@   loop 1 invariant dlOpened == dlClosed + ite(err == nil, 1, 0) && dlKept == 0 && (err == nil) == (conn != nil) && (err == nil ==> fdopen[conn.fd] && conn.closed == 0)
+//@   loop 1 invariant mbase(pollmanager) && (pollmanager.status == 2 ==> mgood(pollmanager)) && pollmanager.status != 1 && cblist()
+//@   note the poller pool and the callback list keep their invariants across calls that do not change them (proved for the functions that do: C18, C05)
+//@   ghost after call (*netFD).Close#1: assume mbase(pollmanager) && (pollmanager.status == 2 ==> mgood(pollmanager)) && pollmanager.status != 1
+//@   ghost after call internetSocket#2: assume mbase(pollmanager) && (pollmanager.status == 2 ==> mgood(pollmanager)) && pollmanager.status != 1
+//@   ghost after call internetSocket#1: assume mbase(pollmanager) && (pollmanager.status == 2 ==> mgood(pollmanager)) && pollmanager.status != 1
+//@   ghost at entry: dlOpened = 0; dlClosed = 0; dlKept = 0
+//@   ghost after call internetSocket#1: dlOpened = dlOpened + ite(result1 == nil, 1, 0)
+//@   ghost after call internetSocket#2: dlOpened = dlOpened + ite(result1 == nil, 1, 0)
+//@   ghost after call (*netFD).Close#1: dlClosed = dlClosed + 1
+//@   ghost before call newTCPConnection#1: dlKept = 1
+//@ ghost global dlKept int
